@@ -31,7 +31,7 @@ INTERNAL = ('AttributeError', 'TypeError', 'KeyError', 'AssertionError', 'Unboun
 
 
 def bfs(fst, src0, depth, alphas, part, res, on_state, on_raise=None, kind='exec', cid_prefix='', horizon=10.0,
-        on_pre=None):
+        on_pre=None, enum=None):
     """alphas[d] = kwargs of edits.enumerate_ops for level d (0-based). part=(r, M): this shard expands only the
     level-1 states whose index in the deterministic level-1 order is == r mod M (level 1 itself is explored by the
     shard with r == 0; the others only rebuild it)."""
@@ -47,7 +47,7 @@ def bfs(fst, src0, depth, alphas, part, res, on_state, on_raise=None, kind='exec
         for hist in frontier:
             base = build(fst, src0, hist, kind)
             cur = canon(base)
-            ops = list(E.enumerate_ops(cur[2], **alphas[d]))
+            ops = list(enum(cur[2], d) if enum else E.enumerate_ops(cur[2], **alphas[d]))
             for op in ops:
                 cid = f'{cid_prefix}{"|".join(E.op_id(o) for o in hist + [op])}'
                 try:
